@@ -9,13 +9,23 @@ CONFIG = {
                 "(CreateIterator / FieldDimensions / IteratorCost sequences on one mapping) return the single-node answer or an error. The model is diffed on every run "
                 "against the real ClusterShardMapper + remoteShardGroup + MetaExecutor + coordinator.Service + tsdb.Store on an in-process 2-3 node cluster with injected faults. "
                 "Partial: a stream closed at a frame boundary (or right after a frame's length prefix) is accepted as complete (open finding c05-stream-cut-at-frame-boundary, excluded from the link theorem by hypothesis); "
-                "MapType and ReadFilter/ReadGroup streams are not driven end to end (only their reply handling).",
+                "MapType is not driven end to end (only its reply handling). "
+                "Storage-read streams (MetaExecutor.ReadFilter / ReadGroup -> storeStreamReceiver.Recv -> reads.ResultSetStreamReader / GroupResultSetStreamReader): for every sequence of messages (any payload bytes "
+                "below MaxMessageSize) and every byte offset at which the connection is closed, Recv hands on exactly the messages lying completely before the cut, intact and in order, "
+                "reports an error iff the cut lies strictly inside a message (type byte delivered, size or value incomplete; repaired by a fix: commit - before it every cut was read as the end of the stream), "
+                "delivers everything when nothing is cut, and a call returns the single-store answer or an error for every cut not exactly at a message boundary "
+                "(boundary cuts: same open limitation, end of stream = EOF); diffed against the real receiver on byte streams written by the real sender, against the real result-set readers, and end to end "
+                "against MetaExecutor.ReadFilter/ReadGroup -> TCP proxy cutting the byte stream -> coordinator.Service -> storage.Store -> tsdb.Store. "
+                "SHOW fan-out (ClusterTSDBStore.MeasurementNames / TagKeys / TagValues over MetaExecutor.ExecuteQuery): for every layout and node behaviour (serve | error reply | down) the listing is the sorted union over the "
+                "answering nodes, never an error; it equals the single-node listing whenever every shard has an answering owner; Partial: when some shard has no answering owner the listing is silently incomplete "
+                "(open finding c05-show-fanout-drops-node-errors, show_silently_incomplete_refuted); diffed against the real ClusterTSDBStore on the in-process cluster with nodes down / replying with errors.",
         "note": "Trusts Coq kernel, the harness (fault-injecting connection wrapper, canonicalisers), loopback TCP; opt.NodeID > 0 (explicit single-node read) excluded; MapType has no error channel.",
         "technique": "Coq proof (induction over shard lists / retry rounds with a decreasing clean-owner measure) on a Gallina model + differential correspondence against an in-process mini-cluster",
     },
     "harness": "h_c05",
     "level": "proof",
-    "extra_proof_files": ["ProofsA", "ProofsB", "ProofsC"],
+    "extra_proof_files": ["ProofsA", "ProofsB", "ProofsC", "ProofsStream", "ProofsShow"],
+    "coq_deps": ["C15"],
     "n": {"quick": 900, "thorough": 12000},
     "shard": 150,
     "harness_timeout": {"quick": 420, "thorough": 3000},
@@ -26,21 +36,120 @@ CONFIG = {
             "the expected rows come from the data (single store holding the union of the live data, all shards, time filter only), not from the metadata lookup; "
             "x per world 40 queries (statement = 1 source (45%) or 2-3 sources over measurements m/m1/m2 of one or two retention policies, 20% wrapped in a subquery; coordinator uniformly, or one owning no shard (30%), or one needing remote shards, time range = subset of groups possibly trimmed, each other node down with p=0.2, per-request fault function "
             "hash(seed,node,shard set,call index) with p in {0,25,50,80}% choosing error reply / cut inside the response / cut after j points + b bytes, 1-3 operations from "
-            "CreateIterator, FieldDimensions, IteratorCost on the same mapping); distinct = distinct input description; non-trivial = at least one remote shard group",
+            "CreateIterator, FieldDimensions, IteratorCost on the same mapping); distinct = distinct input description; non-trivial = at least one remote shard group. "
+            "Stream cases: kind recv (real storeStreamReceiver.Recv on the first k bytes of 1-5 messages written by the real storeStreamSender - responses, empty responses, trailers, unknown message types - optionally followed by a "
+            "negative / oversized size or a partial header; designed: every offset of a 3-message stream) compared message by message at byte level; kind rsraw (real ResultSetStreamReader / GroupResultSetStreamReader over the receiver; "
+            "well- and ill-formed frame sequences: points before a series, group frames in a ReadFilter stream, runs of empty responses; designed: every offset of a ReadFilter and a ReadGroup stream); kind sread "
+            "(MetaExecutor.ReadFilter / ReadGroup against a node of the in-process cluster through a proxy closing the reply after k bytes: k = 0, inside type byte / size / value of the response message and of each stream message, "
+            "exactly at each message boundary, full length; worlds with float data (one message) and 9000/30000-byte strings (several 64 KiB messages); reference = the same request on the single store, no network); "
+            "offsets of generated cases biased to boundaries, after the type byte, inside the size, after the size, last byte missing. "
+            "SHOW cases: kind show (ClusterTSDBStore.MeasurementNames / TagKeys / TagValues on 2-4 node clusters, ring or arbitrary ownership, tagged series per shard, each other node down 25% / error reply 20%; "
+            "designed: the Coq witness layout and the same data with a covering replica x coordinator x {down, error reply} sets); reference = the listing of the single store holding every shard",
     "trusted_base": [
         "C05: node behaviour enters the model as the table of outcomes the fault injector applied to the requests that reached each node (plus the set of refusing nodes); the injector is part of the harness",
         "C05: the random oracle of mapShards is read off the observed mapping (index of the chosen owner); the model must reproduce the whole mapping from it",
         "C05: row content is modelled as a set of row ids per shard (unique timestamps, one series); merge order, field typing and aggregation are the real code's and only compared through the single-store reference",
-        "C05: opt.NodeID > 0, MapType (no error channel), ReadFilter/ReadGroup streaming (only their reply handling) are outside the model; all measurements hold identical data, so sources are distinguished by (db, rp) key only",
+        "C05: opt.NodeID > 0 and MapType (no error channel) are outside the model; all measurements hold identical data, so sources are distinguished by (db, rp) key only",
+        "C05 streams: protobuf / JSON decoding of message payloads is not modelled (payloads are handed on as bytes; the harness re-marshals what Recv returned and only feeds payloads written by the real sender); "
+        "the sender side (reads.ResponseWriter, storeStreamSender) is observed, not modelled: the message structure of the node's reply is read off the bytes the proxy recorded; "
+        "'use of closed network connection' (local close) -> io.EOF is not modelled; partition-key order check of the group reader not modelled (inputs keep group ids ascending); the cutting proxy is part of the harness",
+        "C05 SHOW: a listing is a set of abstract items (measurement names, (measurement, key), (measurement, key, value)); what a node answers is modelled as the items of the shards it owns "
+        "(tsdb.Store.TagKeys over the shards it holds) and checked against the real reference listing; errors of the coordinator's own store are in the model but not injected by the harness",
     ],
     "modelled": "coordinator/shard_mapper.go mapShards (NodeID = 0 branch), shuffleShards, the retry loops of remoteShardGroup.{CreateIterator,FieldDimensions,IteratorCost} (same shape as ReadFilter/ReadGroup), "
                 "ClusterShardMapping fan-out/merge, MetaExecutor reply handling (client_response), ReaderIterator end-of-stream rule are modelled (theories/C05/Model.v); "
+                "coordinator/store_stream.go storeStreamReceiver.Recv over ReadType/ReadLV (tied to C15's read_tlv by recv_step_is_read_tlv), MetaExecutor.ReadFilter/ReadGroup response + stream, "
+                "storage/reads frameReader.peekFrame (ErrStreamNoData rule) and the ResultSetStreamReader / GroupResultSetStreamReader state machines (theories/C05/StreamModel.v); "
+                "MetaExecutor.ExecuteQuery and ClusterTSDBStore.{MeasurementNames,TagKeys,TagValues} merge (theories/C05/ShowModel.v); "
                 "tsdb iterators, protobuf bodies, connection pool, TCP are exercised by the harness but not modelled",
     "assumptions": ["every shard in the metadata view has at least one owner (C06 invariant)",
                     "a connection closed by the peer after it has read the whole request is seen by the client as EOF (FIN), as on loopback"],
 }
 
 KNOWN_CUT = "c05-stream-cut-at-frame-boundary"
+KNOWN_SHOW = "c05-show-fanout-drops-node-errors"
+
+
+def _boundary_cut(hdr, lens, k):
+    """k (offset in the node's reply) lies exactly before a stream message (the end of the
+    response message or of a stream message) and at least one message is missing"""
+    off = hdr
+    for l in lens:
+        if k == off:
+            return True
+        off += 9 + l
+    return False
+
+
+def _classify_stream(case):
+    """storage-read stream closed exactly at a message boundary and read as complete: kinds
+    rsraw / sread; no call error, no stream error, nothing damaged; the delivered items are a
+    strict prefix-like part of the reference: every delivered item equals the reference item at
+    its position except that the last one may hold a prefix of its timestamps."""
+    d, obs = case["desc"], case["obs"]
+    if obs.get("call_error") or obs.get("error") or obs.get("corrupt"):
+        return None
+    k = d["k"]
+    if k < 0 or not _boundary_cut(obs["hdr"], obs["lens"], k):
+        return None
+    got, ref = obs.get("items") or [], obs.get("reference") or []
+    if len(got) > len(ref) or got == ref:
+        return None
+    for i, g in enumerate(got):
+        r = ref[i]
+        if g["kind"] != r["kind"] or g["id"] != r["id"]:
+            return None
+        gt, rt = g.get("ts") or [], r.get("ts") or []
+        if i < len(got) - 1:
+            if gt != rt:
+                return None
+        elif gt != rt[:len(gt)]:
+            return None
+    return KNOWN_CUT
+
+
+def _classify_recv(case):
+    """receiver level: the stream is cut exactly between two messages (or before the first), no
+    error is reported and exactly the messages before the cut were received"""
+    d, obs = case["desc"], case["obs"]
+    if obs.get("error"):
+        return None
+    lens = obs["lens"]
+    if not _boundary_cut(0, lens, d["k"]):
+        return None
+    n = 0
+    off = 0
+    for l in lens:
+        if off + 9 + l <= d["k"]:
+            n += 1
+        off += 9 + l
+    if len(obs.get("received") or []) != n or n >= len(lens):
+        return None
+    return KNOWN_CUT
+
+
+def _classify_show(case):
+    """SHOW fan-out: no error returned, some data node is down or replies with an error, the
+    listing is a duplicate-free strict subset of the reference and every missing item belongs to
+    a shard none of whose owners answered"""
+    d, obs = case["desc"], case["obs"]
+    if obs.get("err"):
+        return None
+    bad = set(d.get("down") or []) | set(d.get("errs") or [])
+    if not bad:
+        return None
+    uncovered = [sp for sp in d["world"]["shards"] if all(o in bad for o in sp["owners"])]
+    if not uncovered:
+        return None
+    droppable = set()
+    for sp in uncovered:
+        droppable.update(obs["items_by_shard"].get(str(sp["id"])) or [])
+    got, ref = obs.get("listing") or [], obs.get("reference") or []
+    if len(set(got)) != len(got) or not set(got) < set(ref):
+        return None
+    if not (set(ref) - set(got)) <= droppable:
+        return None
+    return KNOWN_SHOW
 
 
 def classify(case):
@@ -52,6 +161,12 @@ def classify(case):
     result that is a duplicate-free strict subset of the reference whose missing rows all
     belong to shards of the cleanly cut requests."""
     try:
+        if case.get("kind") in ("rsraw", "sread"):
+            return _classify_stream(case)
+        if case.get("kind") == "recv":
+            return _classify_recv(case)
+        if case.get("kind") == "show":
+            return _classify_show(case)
         if case.get("kind") != "query":
             return None
         d, obs = case["desc"], case["obs"]
